@@ -3,8 +3,11 @@ package rules
 import (
 	"fmt"
 	"go/ast"
+	"go/importer"
+	"go/parser"
 	"go/token"
 	"go/types"
+	"path/filepath"
 	"sort"
 	"strings"
 
@@ -18,7 +21,7 @@ import (
 func init() { register("C13", checkC13) }
 
 func checkC13(c *core.Ctx) {
-	c.Explainf("C13 (decided clause: exhaustiveness of the hand-enumerated checks; that each check's predicate is right is behaviour and NOT decided). R1 facet x kind matrix over File.Validate: for each of enum, struct, message, union the loop over that kind must perform every applicable check — primitive-name clash (lookup in primitiveTypes), duplicate definition (customTypes), duplicate member names (a per-definition name set), duplicate enum values (signed and unsigned sets), duplicate opcode (allOpCodes), and a walk reaching typeDefined for every field-bearing kind incl. the struct/message branches of a union; union branches are checked like definitions of their own. R1c: every name stored into the set typeDefined consults is traced to the collection it ranges over, which must be one of the four definition lists, the union branches or the primitive table (a const or option name in that set would pass as a type). R2: message and union indices are parsed with ParseUint(_, 10, 8), tested against the existing map before insertion, and a zero message index is rejected. R3: the enum option parser's bit size flows from decodeIntegerType, and the flag-expression evaluators do not narrow a 64-bit parse result without a range test. R4: readConst's type switch covers every primitive with an arm that tests the token kind, and has an erroring default. R5: the struct-recursion fixpoint only ever adds `true` entries (monotone, hence terminating) and propagates only through struct names.")
+	c.Explainf("C13 (decided clause: exhaustiveness of the hand-enumerated checks; that each check's predicate is right is behaviour and NOT decided). R1 facet x kind matrix over File.Validate: for each of enum, struct, message, union the loop over that kind must perform every applicable check — primitive-name clash (lookup in primitiveTypes), duplicate definition (customTypes), duplicate member names (a per-definition name set), duplicate enum values (signed and unsigned sets), duplicate opcode (allOpCodes), and a walk reaching typeDefined for every field-bearing kind incl. the struct/message branches of a union; union branches are checked like definitions of their own. R1c: every name stored into the set typeDefined consults is traced to the collection it ranges over, which must be one of the four definition lists, the union branches or the primitive table (a const or option name in that set would pass as a type). R2: message and union indices are parsed with ParseUint(_, 10, 8), tested against the existing map before insertion, and a zero message index is rejected. R3: the enum option parser's bit size flows from decodeIntegerType, and the flag-expression evaluators do not narrow a 64-bit parse result without a range test. R4: readConst's type switch covers every primitive with an arm that tests the token kind, and has an erroring default. R5: the struct-recursion fixpoint only ever adds `true` entries (monotone, hence terminating) and propagates only through struct names; a search with a visited set (R5b) keeps that set to one search. R6: no counting loop over a map keyed by a one-byte index stops before index 255 or fails to stop (positive control: fixtures/indexspace). R7: the function that fills the per-struct usage sets of the self-containment analysis ranges over all fields and skips none (a deprecated struct field is still part of the type). R8: every function on the enum-value path that is handed the enum's bit size passes it to each strconv.ParseInt/ParseUint it calls itself.")
 	p := loadRepo(c)
 	if p == nil {
 		return
@@ -315,6 +318,9 @@ func checkC13(c *core.Ctx) {
 		c.Undecide("no function looks a field type's name up in a set of defined names (typeDefined not found)")
 	}
 	definedSetHoldsTypes(c, p, fd)
+	indexSpaceComplete(c, p)
+	usageLeavesNoFieldOut(c, p, fd)
+	bitSizeReachesParses(c, p)
 
 	// ---- R2 index rules
 	for _, cfgx := range []struct {
@@ -1310,4 +1316,349 @@ func visitedSetSearch(c *core.Ctx, p *load.Prog, validate *ast.FuncDecl) bool {
 		}
 	}
 	return found
+}
+
+// ---- R6: the index space of members is enumerated completely ---------------
+
+// scanIndexSpaceLoops reports every counting loop that visits a map keyed by
+// a one-byte index through its counter and stops before index 255 (or, with a
+// one-byte counter and an inclusive bound of 255, never stops).
+func scanIndexSpaceLoops(info *types.Info, files []*ast.File, report func(fn string, pos token.Pos, why string)) int {
+	n := 0
+	for _, f := range files {
+		for _, d := range f.Decls {
+			fd, ok := d.(*ast.FuncDecl)
+			if !ok || fd.Body == nil {
+				continue
+			}
+			ast.Inspect(fd.Body, func(nd ast.Node) bool {
+				loop, ok := nd.(*ast.ForStmt)
+				if !ok || loop.Cond == nil {
+					return true
+				}
+				// the conjunct of the condition that bounds a variable by a constant
+				var bound *ast.BinaryExpr
+				var walk func(e ast.Expr)
+				walk = func(e ast.Expr) {
+					be, ok := ast.Unparen(e).(*ast.BinaryExpr)
+					if !ok {
+						return
+					}
+					if be.Op == token.LAND {
+						walk(be.X)
+						walk(be.Y)
+						return
+					}
+					if be.Op == token.LSS || be.Op == token.LEQ {
+						if _, isId := ast.Unparen(be.X).(*ast.Ident); isId {
+							if _, isC := constInt(info, be.Y); isC && bound == nil {
+								bound = be
+							}
+						}
+					}
+				}
+				walk(loop.Cond)
+				if bound == nil {
+					return true
+				}
+				ctr := info.ObjectOf(ast.Unparen(bound.X).(*ast.Ident))
+				k, _ := constInt(info, bound.Y)
+				// does the body index a map keyed by a one-byte integer with the counter?
+				indexes := false
+				ast.Inspect(loop.Body, func(m ast.Node) bool {
+					ix, ok := m.(*ast.IndexExpr)
+					if !ok {
+						return true
+					}
+					mt, ok := info.TypeOf(ix.X).Underlying().(*types.Map)
+					if !ok {
+						return true
+					}
+					kb, ok := mt.Key().Underlying().(*types.Basic)
+					if !ok || (kb.Kind() != types.Uint8) {
+						return true
+					}
+					idx := ast.Unparen(ix.Index)
+					if call, isC := idx.(*ast.CallExpr); isC && len(call.Args) == 1 {
+						if tv, okT := info.Types[call.Fun]; okT && tv.IsType() {
+							idx = ast.Unparen(call.Args[0])
+						}
+					}
+					if id, isId := idx.(*ast.Ident); isId && info.ObjectOf(id) == ctr {
+						indexes = true
+					}
+					return true
+				})
+				if !indexes {
+					return true
+				}
+				n++
+				oneByte := false
+				if b, isB := ctr.Type().Underlying().(*types.Basic); isB && b.Kind() == types.Uint8 {
+					oneByte = true
+				}
+				last := k
+				if bound.Op == token.LSS {
+					last = k - 1
+				}
+				switch {
+				case oneByte && bound.Op == token.LEQ && k >= 255:
+					report(fd.Name.Name, loop.Pos(), "the one-byte counter is always <= 255: the loop never ends")
+				case last < 255:
+					report(fd.Name.Name, loop.Pos(), fmt.Sprintf("the loop stops after index %d: a member at index 255 (the largest the format allows) is never visited", last))
+				}
+				return true
+			})
+		}
+	}
+	return n
+}
+
+func indexSpaceComplete(c *core.Ctx, p *load.Prog) {
+	pkg := p.Bebop()
+	scanIndexSpaceLoops(pkg.TypesInfo, pkg.Syntax, func(fn string, pos token.Pos, why string) {
+		c.Check("R6", fn+" enumerates the one-byte index space completely", p.Pos(pos), false,
+			why+": the checks (and whatever else walks the members this way) skip that member, so a field of an undefined type or with a duplicate name at that index is accepted")
+	})
+	c.Check("R6", "every counting loop over a one-byte index space reaches index 255 (scan complete)", "gen_types.go", true, "")
+	f, info, err := typeCheckFixture(c, "indexspace")
+	if err != nil {
+		c.Undecide("positive control fixture indexspace: %v", err)
+		return
+	}
+	hits := map[string]bool{}
+	scanIndexSpaceLoops(info, []*ast.File{f}, func(fn string, pos token.Pos, why string) { hits[fn] = true })
+	c.Check("R6", "positive control: a loop that stops at 254 is recognised", "fixtures/indexspace/fx.go", hits["short"], "the rule no longer matches the shape it is meant to find")
+	c.Check("R6", "positive control: an int counter up to 255 and a range are not reported", "fixtures/indexspace/fx.go", !hits["wide"] && !hits["ranged"], "")
+}
+
+// typeCheckFixture parses and type-checks fixtures/<name>/fx.go.
+func typeCheckFixture(c *core.Ctx, name string) (*ast.File, *types.Info, error) {
+	path := filepath.Join(c.VerifDir, "fixtures", name, "fx.go")
+	fset := token.NewFileSet()
+	f, err := parser.ParseFile(fset, path, nil, 0)
+	if err != nil {
+		return nil, nil, err
+	}
+	info := &types.Info{Types: map[ast.Expr]types.TypeAndValue{}, Defs: map[*ast.Ident]types.Object{}, Uses: map[*ast.Ident]types.Object{}, Selections: map[*ast.SelectorExpr]*types.Selection{}, Instances: map[*ast.Ident]types.Instance{}}
+	if _, err := (&types.Config{Importer: importer.ForCompiler(fset, "source", nil)}).Check("fx", fset, []*ast.File{f}, info); err != nil {
+		return nil, nil, err
+	}
+	return f, info, nil
+}
+
+// ---- R7: the usage relation of structs leaves no field out ------------------
+
+// usageLeavesNoFieldOut: whatever function fills the per-struct usage sets
+// that the self-containment analysis works on ranges over all the struct's
+// fields and skips none: a field that is deprecated is still part of the Go
+// type and of every encoded value of a struct.
+func usageLeavesNoFieldOut(c *core.Ctx, p *load.Prog, validate *ast.FuncDecl) {
+	pkg := p.Bebop()
+	info := pkg.TypesInfo
+	n := 0
+	seen := map[*ast.FuncDecl]bool{}
+	ast.Inspect(validate.Body, func(nd ast.Node) bool {
+		as, ok := nd.(*ast.AssignStmt)
+		if !ok || len(as.Lhs) != 1 || len(as.Rhs) != 1 {
+			return true
+		}
+		ix, ok := ast.Unparen(as.Lhs[0]).(*ast.IndexExpr)
+		if !ok {
+			return true
+		}
+		// a map from names to sets of names: map[string]map[string]bool
+		mt, ok := info.TypeOf(ix.X).Underlying().(*types.Map)
+		if !ok {
+			return true
+		}
+		if _, inner := mt.Elem().Underlying().(*types.Map); !inner {
+			return true
+		}
+		call, ok := ast.Unparen(as.Rhs[0]).(*ast.CallExpr)
+		if !ok {
+			return true
+		}
+		cal := load.Callee(info, call)
+		if cal == nil || cal.Pkg() != pkg.Types {
+			return true
+		}
+		cd := p.Decl(cal)
+		if cd == nil || cd.Body == nil || seen[cd] {
+			return true
+		}
+		seen[cd] = true
+		n++
+		skipped := ""
+		ast.Inspect(cd.Body, func(m ast.Node) bool {
+			rs, ok := m.(*ast.RangeStmt)
+			if !ok || !strings.HasSuffix(collectionName(info, rs.X), ".Fields") {
+				return true
+			}
+			ast.Inspect(rs.Body, func(k ast.Node) bool {
+				ifs, ok := k.(*ast.IfStmt)
+				if !ok {
+					return true
+				}
+				leaves := false
+				ast.Inspect(ifs.Body, func(q ast.Node) bool {
+					if br, ok := q.(*ast.BranchStmt); ok && br.Tok == token.CONTINUE {
+						leaves = true
+					}
+					return true
+				})
+				if leaves {
+					skipped = wire.Canon(ifs.Cond) + " at " + p.Pos(ifs.Pos())
+				}
+				return true
+			})
+			return true
+		})
+		c.Check("R7", load.FuncName(cal)+" (the usage sets of the struct self-containment analysis) leaves no field out", p.Pos(cd.Pos()), skipped == "",
+			"the loop over the struct's fields skips those for which "+skipped+": a struct that contains itself through such a field is accepted, and its Go type has infinite size")
+		return true
+	})
+	c.Count("struct_usage_fillers", n)
+	if n == 0 {
+		c.Undecide("Validate: no function fills a map of per-struct usage sets: the usage relation of the self-containment analysis is not recognised")
+	}
+}
+
+// ---- R8: the bit size reaches every integer parse on the enum value path ----
+
+// bitSizeReachesParses: a function on the path of an enum option's value that
+// is handed the enum's bit size (a parameter that flows, in it or in a callee,
+// into the bitSize argument of strconv.ParseInt/ParseUint or into a callee's
+// bit-size parameter) gives that parameter to every ParseInt/ParseUint it
+// calls itself: a parse at 64 bits accepts `B = 256` in an enum of uint8.
+func bitSizeReachesParses(c *core.Ctx, p *load.Prog) {
+	pkg := p.Bebop()
+	info := pkg.TypesInfo
+	isParse := func(call *ast.CallExpr) bool {
+		cal := load.Callee(info, call)
+		return cal != nil && cal.Pkg() != nil && cal.Pkg().Path() == "strconv" && (cal.Name() == "ParseInt" || cal.Name() == "ParseUint") && len(call.Args) == 3
+	}
+	// bit-size parameters, to a fixpoint
+	role := map[types.Object]bool{}
+	decls := funcsOfFiles(p, pkg, "parse.go", "parse_expr.go", "eval_expr.go")
+	for changed := true; changed; {
+		changed = false
+		for _, fd := range decls {
+			obj, _ := info.Defs[fd.Name].(*types.Func)
+			if obj == nil {
+				continue
+			}
+			ast.Inspect(fd.Body, func(n ast.Node) bool {
+				call, ok := n.(*ast.CallExpr)
+				if !ok {
+					return true
+				}
+				mark := func(arg ast.Expr) {
+					if id, ok := ast.Unparen(arg).(*ast.Ident); ok {
+						if v, ok := info.ObjectOf(id).(*types.Var); ok && isParamOf(info, fd, v) && !role[v] {
+							role[v] = true
+							changed = true
+						}
+					}
+				}
+				if isParse(call) {
+					mark(call.Args[2])
+					return true
+				}
+				if cal := load.Callee(info, call); cal != nil && cal.Pkg() == pkg.Types {
+					if sig, ok := cal.Type().(*types.Signature); ok {
+						for i, a := range call.Args {
+							if i < sig.Params().Len() && role[sig.Params().At(i)] {
+								mark(a)
+							}
+						}
+					}
+				}
+				return true
+			})
+		}
+	}
+	// evaluateBitflagExpr dispatches on the size with a switch instead of a parse
+	for _, fd := range decls {
+		ast.Inspect(fd.Body, func(n ast.Node) bool {
+			if sw, ok := n.(*ast.SwitchStmt); ok && sw.Tag != nil {
+				if id, ok := ast.Unparen(sw.Tag).(*ast.Ident); ok {
+					if v, ok := info.ObjectOf(id).(*types.Var); ok && isParamOf(info, fd, v) {
+						if b, isB := v.Type().Underlying().(*types.Basic); isB && b.Kind() == types.Int {
+							allSizes := len(sw.Body.List) > 0
+							for _, cc := range sw.Body.List {
+								for _, e := range cc.(*ast.CaseClause).List {
+									if k, isC := constInt(info, e); !isC || (k != 8 && k != 16 && k != 32 && k != 64) {
+										allSizes = false
+									}
+								}
+							}
+							if allSizes {
+								role[v] = true
+							}
+						}
+					}
+				}
+			}
+			return true
+		})
+	}
+	// one more propagation round for callers of the dispatching function
+	for changed := true; changed; {
+		changed = false
+		for _, fd := range decls {
+			ast.Inspect(fd.Body, func(n ast.Node) bool {
+				call, ok := n.(*ast.CallExpr)
+				if !ok {
+					return true
+				}
+				if cal := load.Callee(info, call); cal != nil && cal.Pkg() == pkg.Types {
+					if sig, ok := cal.Type().(*types.Signature); ok {
+						for i, a := range call.Args {
+							if i < sig.Params().Len() && role[sig.Params().At(i)] {
+								if id, ok := ast.Unparen(a).(*ast.Ident); ok {
+									if v, ok := info.ObjectOf(id).(*types.Var); ok && isParamOf(info, fd, v) && !role[v] {
+										role[v] = true
+										changed = true
+									}
+								}
+							}
+						}
+					}
+				}
+				return true
+			})
+		}
+	}
+	n := 0
+	for _, fd := range decls {
+		var sizeParam *types.Var
+		for _, fl := range fd.Type.Params.List {
+			for _, nm := range fl.Names {
+				if v, ok := info.Defs[nm].(*types.Var); ok && role[v] {
+					sizeParam = v
+				}
+			}
+		}
+		if sizeParam == nil {
+			continue
+		}
+		ast.Inspect(fd.Body, func(nd ast.Node) bool {
+			if _, isLit := nd.(*ast.FuncLit); isLit {
+				return true
+			}
+			call, ok := nd.(*ast.CallExpr)
+			if !ok || !isParse(call) {
+				return true
+			}
+			n++
+			id, isId := ast.Unparen(call.Args[2]).(*ast.Ident)
+			okSize := isId && info.ObjectOf(id) == types.Object(sizeParam)
+			c.Check("R8", fmt.Sprintf("%s parses an enum value at the enum's bit size (%s)", fd.Name.Name, wire.Canon(call.Fun)), p.Pos(call.Pos()), okSize,
+				fmt.Sprintf("the function is handed the enum's bit size (%s) but parses the literal with bitSize %s: a value outside the range of the enum's base type is accepted, and the generated constant does not compile or wraps", sizeParam.Name(), wire.Canon(call.Args[2])))
+			return true
+		})
+	}
+	c.Count("enum_value_parses_with_bit_size", n)
+	c.Floor("enum_value_parses_with_bit_size", 1)
 }
